@@ -63,6 +63,11 @@ DEFAULT = dict(
   p_fluid_ellipsoid=0.0,  # fluidshape="ellipsoid" on body geoms; 0 draws no random numbers
   p_tendon_armature=None,  # None: p_armature/2 (historic behaviour)
   big_tree_branch=0,  # >0: the big tree starts a new branch at its root link every this many links
+  # extras drawn from a SEPARATE random stream (self.rx): enabling them adds attributes but leaves the model structure
+  # produced by the main stream unchanged
+  p_poly=0.0,  # polynomial stiffness / damping coefficients on joints and tendons that have a spring / damper
+  p_actfrcrange=0.0,  # actuatorfrcrange on joints and tendons
+  p_surfacevel=0.0,  # geom surface velocity (only when collide)
 )
 
 
@@ -107,6 +112,7 @@ MESHES = {
 class Gen:
   def __init__(self, seed, P):
     self.rng = np.random.default_rng(seed)
+    self.rx = np.random.default_rng([int(seed) & 0xFFFFFFFF, 0xE47A])
     self.P = P
     self.bodies = []  # names of non-world bodies
     self.body_parent = {}
@@ -163,6 +169,10 @@ class Gen:
     if self.P.get("p_fluid_ellipsoid") and body != "world" and rng.random() < self.P["p_fluid_ellipsoid"]:
       attrs["fluidshape"] = "ellipsoid"
       self.feat.add("fluid_ellipsoid")
+    if P.get("p_surfacevel") and P["collide"] and self.rx.random() < P["p_surfacevel"]:
+      sv = self.rx.normal(size=6) * np.array([0.5, 0.5, 0.5, 1.0, 1.0, 1.0]) * (self.rx.random(6) < 0.6)
+      attrs["surfacevel"] = _f(sv)
+      self.feat.add("surfacevel")
     self.geoms.append((name, t, body))
     self.feat.add("geom:" + t)
     return "<geom " + " ".join(f'{k}="{v}"' for k, v in attrs.items()) + "/>"
@@ -243,6 +253,16 @@ class Gen:
       self.feat.add("frictionloss:dof")
     if jtype in ("hinge", "slide") and rng.random() < 0.3:
       a["ref"] = _f(rng.uniform(-0.3, 0.3))
+    if P.get("p_poly"):
+      for key in ("stiffness", "damping"):
+        if key in a and self.rx.random() < P["p_poly"]:
+          a[key] = a[key] + " " + _f(self.rx.uniform(0, 4, size=2) * (self.rx.random(2) < 0.8))
+          self.feat.add(key + "poly:joint")
+    if P.get("p_actfrcrange") and self.rx.random() < P["p_actfrcrange"]:
+      lo = self.rx.uniform(0.05, 3.0)
+      a["actuatorfrcrange"] = _f([-lo, self.rx.uniform(0.05, 3.0)])
+      a["actuatorfrclimited"] = "true"
+      self.feat.add("actfrcrange:joint")
     self.joints.append((name, jtype, body))
     self.feat.add("joint:" + jtype)
     return "<joint " + " ".join(f'{k}="{v}"' for k, v in a.items()) + "/>"
@@ -485,6 +505,16 @@ class Gen:
       if rng.random() < 0.3:
         a["margin"] = _f(rng.uniform(0, 0.05))
       self.feat.add("limit:tendon")
+    if P.get("p_poly"):
+      for key in ("stiffness", "damping"):
+        if key in a and self.rx.random() < P["p_poly"]:
+          a[key] = a[key] + " " + _f(self.rx.uniform(0, 4, size=2) * (self.rx.random(2) < 0.8))
+          self.feat.add(key + "poly:tendon")
+    if P.get("p_actfrcrange") and self.rx.random() < P["p_actfrcrange"]:
+      lo = self.rx.uniform(0.05, 3.0)
+      a["actuatorfrcrange"] = _f([-lo, self.rx.uniform(0.05, 3.0)])
+      a["actuatorfrclimited"] = "true"
+      self.feat.add("actfrcrange:tendon")
     return " ".join(f'{k}="{v}"' for k, v in a.items())
 
   # ---------------------------------------------------------------- actuators
